@@ -1474,7 +1474,10 @@ func runKernels(specs []kernelSpec, outFile string, requires string) error {
 	if err != nil {
 		// a kernel left the subset (or disappeared): a stale translation must not keep the tie theorems
 		// provable, so the file goes and everything that depends on it stops building
-		_ = os.Remove(filepath.Join(outDir, outFile))
+		base := strings.TrimSuffix(filepath.Join(outDir, outFile), ".v")
+		for _, ext := range []string{".v", ".vo", ".vos", ".vok", ".glob"} {
+			_ = os.Remove(base + ext)
+		}
 	}
 	return err
 }
